@@ -9,5 +9,8 @@ CLAIMS["C09"] = dict(engine="seq",
        "and 7 tracestate seeds with the same mutations under 3 valid traceparents, from an empty and a populated caller context. Oracle: strict W3C headers must be accepted, "
        "anything not of that shape even after trimming ASCII whitespace and folding hex case must be rejected, the rest is don't-care; accepted => exactly the encoded ids / flags, "
        "remote, caller's other values kept; rejected => the returned context is the caller's context object (same head node); the carrier and the caller's context are never modified; "
-       "a tracestate header never changes the traceparent verdict.",
+       "a tracestate header never changes the traceparent verdict. Absent headers are answered by the carrier with a zero-byte block and (unmutated layer) with a default-constructed "
+       "null-data view. Helpers: TraceIdFromHex / SpanIdFromHex / TraceFlagsFromHex on exact-size heap blocks of every length 0..2N+2 (odd, short, over-long), unchanged, with every single "
+       "byte replaced by each of 10 hex / non-hex classes, or uniform: never a crash or out-of-bounds access; all-hex input of length <= 2N decodes to the left-padded value; the value for "
+       "over-long or non-hex input is don't-care.",
   note=SEQ_NOTE)
